@@ -9,6 +9,15 @@
 (* unrelated key, an untyped variable, a typed variable, or a typed        *)
 (* variable that already carries a compose list.                           *)
 (*                                                                         *)
+(* DATA KINDS.  The data x is an integer (Xs) or one of Ys: None, a tuple, *)
+(* a "hit" ((x, x+1), {"layer": x}) - a pair that itself looks like a      *)
+(* (data, context) value.  Getters produce such data as well (none, pair,  *)
+(* hit) and take them (first, len, layer; dflt / isnone take anything,     *)
+(* also None).  A chain is run on a starting value when no getter raises   *)
+(* on the way (DefChain); Combine(chain) is applied when every member can  *)
+(* take the starting data (CombOk).  Extra = further chain elements        *)
+(* (Combines of variables that take tuples, anywhere in the chain).        *)
+(*                                                                         *)
 (* Actions = public calls:                                                 *)
 (*   ApplyVar      the next element of Sequence(v1..vn) is applied to the  *)
 (*                 running value (Variable.__call__)                       *)
@@ -27,7 +36,7 @@
 (***************************************************************************)
 EXTENDS VarSem, Json
 
-CONSTANTS MaxLen, Pool, Starts, Xs, Nested, CopyVarContext
+CONSTANTS MaxLen, Pool, Starts, Xs, Ys, Extra, Nested, CopyVarContext
 
 VARIABLES chain, start, k, sv, cv, bv, rv, vars, al, done
 vars_ == <<chain, start, k, sv, cv, bv, rv, vars, al, done>>
@@ -53,18 +62,13 @@ Elems == Plain \cup (IF Nested THEN {Cmp(p) : p \in Pairs} \cup {Cmb(p) : p \in 
                                      \cup {Cmp(<<Cmb(p), Var(VFirst)>>) : p \in Pairs}
                                      \cup {Cmb(<<Cmp(p), Var(c)>>) : p \in Pairs, c \in Pool}
                                      \cup {Var(VNone), Var(VPair), Cmp(<<Var(VPair), Var(VFirst)>>)}
-                      ELSE {})
-\* the expression yields data that no integer getter can take: only in the last position
-RECURSIVE TupleOut(_)
-TupleOut(e) == CASE e.k = "cmb" -> TRUE
-                 [] e.k = "var" -> e.v.g \in {"none", "pair"}
-                 [] OTHER -> TupleOut(e.ch[Len(e.ch)])
-\* chains by total number of underlying variables: elements use pairwise different variables,
-\* a Combine only in the last position
+                      ELSE {}) \cup Extra
+\* chains by total number of underlying variables: elements use pairwise different variables
+\* (which element may follow which is decided by the data: Init admits a chain for a starting
+\* value when no getter raises, DefChain)
 RECURSIVE VarsOfChain(_), ChainsW(_)
 VarsOfChain(ch) == IF ch = <<>> THEN {} ELSE VarsOf(Head(ch)) \cup VarsOfChain(Tail(ch))
-OkAppend(c, e) == /\ VarsOf(e) \cap VarsOfChain(c) = {}
-                  /\ c = <<>> \/ ~TupleOut(c[Len(c)])
+OkAppend(c, e) == VarsOf(e) \cap VarsOfChain(c) = {}
 ElemsW(n) == {e \in Elems : NVars(e) = n}
 ChainsW(w) ==
   IF w = 0 THEN {<<>>}
@@ -74,7 +78,8 @@ Chains == {ch \in UNION {ChainsW(w) : w \in 1..MaxLen} :
 
 Unset == [d |-> DI(0), c |-> EmptyD]
 Init == /\ chain \in Chains
-        /\ start \in {[d |-> DI(x), c |-> c] : x \in Xs, c \in Starts}
+        /\ start \in {[d |-> d, c |-> c] : d \in {DI(x) : x \in Xs} \cup Ys, c \in Starts}
+        /\ DefChain(chain, start.d)
         /\ k = 0 /\ sv = start /\ cv = Unset /\ bv = Unset /\ rv = Unset
         /\ vars = [j \in 1..Len(chain) |-> VC(chain[j])]
         /\ al = 0
@@ -89,7 +94,7 @@ ApplyVar ==
   /\ LET e == chain[k + 1]
          cvar == IF Has(sv.c, "variable") THEN sv.c.m["variable"] ELSE EmptyD
          comp == Composed(cvar, vars[k + 1])
-     IN /\ sv' = [d |-> Get(e, sv.d), c |-> UpdateCtx(sv.c, vars[k + 1])]
+     IN /\ sv' = [d |-> CallData(e, sv.d), c |-> UpdateCtx(sv.c, vars[k + 1])]
         /\ vars' = IF al # 0 /\ comp # <<>> THEN [vars EXCEPT ![al] = With(@, "compose", L(comp))] ELSE vars
         /\ al' = IF CopyVarContext THEN 0 ELSE k + 1
   /\ k' = k + 1
@@ -98,38 +103,43 @@ ApplyVar ==
 ApplyCompose == /\ "compose" \notin done
                 /\ cv' = Apply(Cmp(chain), start) /\ done' = done \cup {"compose"}
                 /\ UNCHANGED <<chain, start, k, sv, bv, rv, vars, al>>
-ApplyCombine == /\ "combine" \notin done
+\* every member of Combine(chain) can take the starting data
+CombOk == \A j \in 1..Len(chain) : Def(chain[j], start.d)
+ApplyCombine == /\ "combine" \notin done /\ CombOk
                 /\ bv' = Apply(Cmb(chain), start) /\ done' = done \cup {"combine"}
                 /\ UNCHANGED <<chain, start, k, sv, cv, rv, vars, al>>
 
 RECURSIVE ApplyWith(_, _, _, _)
 ApplyWith(ch, vcs, j, val) ==
   IF j > Len(ch) THEN val
-  ELSE ApplyWith(ch, vcs, j + 1, [d |-> Get(ch[j], val.d), c |-> UpdateCtx(val.c, vcs[j])])
+  ELSE ApplyWith(ch, vcs, j + 1, [d |-> CallData(ch[j], val.d), c |-> UpdateCtx(val.c, vcs[j])])
 Repeat == /\ k = Len(chain) /\ "repeat" \notin done
           /\ rv' = ApplyWith(chain, vars, 1, start) /\ done' = done \cup {"repeat"}
           /\ UNCHANGED <<chain, start, k, sv, cv, bv, vars, al>>
 
 Next == ApplyVar \/ ApplyCompose \/ ApplyCombine \/ Repeat
 Spec == Init /\ [][Next]_vars_
-Done == k = Len(chain) /\ done = {"compose", "combine", "repeat"}
+Done == k = Len(chain) /\ done = {"compose", "repeat"} \cup (IF CombOk THEN {"combine"} ELSE {})
 
 (***************************************************************************)
 (* Properties.                                                             *)
 (***************************************************************************)
 SeqDone == k = Len(chain)
-\* same data: vn.getter(...v1.getter(x)...)
-DataEq == (SeqDone /\ "compose" \in done) => sv.d = cv.d /\ cv.d = GetChain(chain, start.d)
+\* same data: vn.getter(...v1.getter(x)...) - also every prefix of the sequence
+DataEq == /\ (SeqDone /\ "compose" \in done) => sv.d = cv.d /\ cv.d = GetChain(chain, start.d)
+          /\ sv.d = GetChain(SubSeq(chain, 1, k), start.d)
 \* same context
 \* (a chain with an untyped variable applied to a value whose context.variable is typed: the
 \* quantifier speaks of variables with distinct types and the documentation warns that an untyped
-\* variable loses the earlier descriptions - the Sequence drops them, Compose does not; not demanded)
-ComposeEqSeq == (SeqDone /\ "compose" \in done /\ ~(HasUntyped(chain) /\ PrevTypes(start.c) # <<>>))
+\* variable loses the earlier descriptions - the Sequence drops them, Compose does not; not demanded;
+\* a Combine without type followed by another variable is such an untyped variable)
+ComposeEqSeq == (SeqDone /\ "compose" \in done /\ ~(LosesTypes(chain) /\ PrevTypes(start.c) # <<>>))
                    => sv.c = cv.c
 \* Combine produces the tuple of the getters' results, and describes its variables
 CombineTuple ==
   "combine" \in done =>
     /\ bv.d = DT([j \in 1..Len(chain) |-> Get(chain[j], start.d)])
+    /\ bv.d.k = "T" /\ Len(bv.d.t) = Len(chain)
     /\ LET v == bv.c.m["variable"] IN
        /\ v.m["dim"] = I(ToString(Len(chain)))
        /\ v.m["combine"] = T([j \in 1..Len(chain) |-> VC(chain[j])])
@@ -188,6 +198,30 @@ Pool4U == Pool4 \cup {Untyped}
 Pool5U == Pool5 \cup {V("raw", "", <<>>, "inc")}
 Pool3U == {v \in Pool4 : v.type # "area"} \cup {Untyped}
 Pool3 == {v \in Pool4 : v.type # "area"}
+\* variables for the data kinds: getters that return / take None, tuples, hits
+PoolK == {V("hit", "measurement", "unit" :> S(<<"cm">>), "hit"),
+          V("fst", "component", <<>>, "first"),
+          V("nf", "size", "note" :> N, "len"),
+          V("lay", "layerno", <<>>, "layer"),
+          V("nothing", "flag", <<>>, "none"),
+          V("filled", "default", "scale" :> I("0"), "dflt"),
+          V("missing", "missflag", <<>>, "isnone"),
+          V("x", "coordinate", "label" :> S(<<>>), "dbl")}
+NameIn(names) == {v \in PoolK : v.name[1] \in names}
+OrdPairs(P) == {<<Var(a), Var(b)>> : a, b \in P} \ {<<Var(a), Var(a)>> : a \in P}
+\* Combines of variables that can take a tuple / None
+ExtraK == {Cmb(p) : p \in OrdPairs(NameIn({"fst", "nf", "filled", "missing"}))}
+          \cup {CmbKw(<<Var(a), Var(b)>>, KwPair) : a \in NameIn({"lay"}), b \in NameIn({"fst"})}
+\* the quick tier: six variables, three Combines of tuple-taking variables and a typed one;
+\* starting data: integer, None, hit
+PoolK6 == NameIn({"hit", "fst", "nf", "lay", "nothing", "filled"})
+ExtraK6 == {Cmb(<<Var(a), Var(b)>>) : a \in NameIn({"fst"}), b \in NameIn({"nf", "filled"})}
+           \cup {Cmb(<<Var(a), Var(b)>>) : a \in NameIn({"filled"}), b \in NameIn({"fst"})}
+           \cup {CmbKw(<<Var(a), Var(b)>>, KwPair) : a \in NameIn({"lay"}), b \in NameIn({"fst"})}
+DataK6 == {DN, Hit(DI(2))}
+NoElems == {}
+NoData == {}
+DataK == {DN, Hit(DI(2)), DT(<<DI(2), DI(3)>>)}
 OldTyped == V("E", "energy", "unit" :> S(<<"MeV">>), "inc")
 OldTyped2 == V("t", "time", <<>>, "inc")
 SameType == V("electron", "particle", "latex" :> S(<<"e-">>), "inc")
@@ -210,12 +244,22 @@ StartsAll ==
 
 \* a subset for the nested quick run: none, other key, empty, typed, typed composition,
 \* composition with a colliding type
+\* for the data kinds: none, other key, typed, typed composition
+StartsK == { EmptyD, D("data" :> D("run" :> S(<<"r1">>))),
+             D("variable" :> VarContext(OldTyped)),
+             D("variable" :> UpdateVar(VarContext(OldTyped2), VarContext(OldTyped))) }
+StartsK6 == { EmptyD, D("variable" :> VarContext(OldTyped)),
+              D("variable" :> UpdateVar(VarContext(OldTyped2), VarContext(OldTyped)) @@ "data" :> D("run" :> S(<<"r1">>))) }
 StartsB == { EmptyD, D("data" :> D("run" :> S(<<"r1">>))), D("variable" :> EmptyD),
              D("variable" :> VarContext(OldTyped)),
              D("variable" :> UpdateVar(VarContext(OldTyped2), VarContext(OldTyped))),
              D("variable" :> UpdateVar(VarContext(SameType), VarContext(OldTyped))) }
 
+\* barable: the value may also be handed in as bare data (no context, and the data does not look
+\* like a (data, context) pair itself)
 Emitted == Done => PrintT(ToJson([chain |-> chain, start |-> start, seq |-> sv, compose |-> cv, combine |-> bv,
+                                  combok |-> CombOk,
+                                  barable |-> start.c = EmptyD /\ ~LooksLikeValue(start.d),
                                   typed |-> AllTyped(chain) /\ DistinctTypes(chain),
                                   lastvc |-> LastVC(chain)]))
 =============================================================================
